@@ -254,7 +254,8 @@ theorem choose_first (rx : Str → Str → Bool) (t : Tree) (a : App) : ∀ (rs 
 /-- what is true of a queue made by the creation loop below `parent` for the name parts `names` -/
 def CreatedUnder (parent : Queue) (names : List Str) (x : Queue) : Prop :=
   parent.path <+: x.path ∧ x.path <+: parent.path ++ lowerName names ∧ x.managed = false ∧ x.draining = false ∧
-    (x.leaf = true → x.cfg = parent.tpl ∧ x.tpl = []) ∧ (x.leaf = false → x.tpl = parent.tpl ∧ x.cfg = [])
+    (x.leaf = true → x.cfg = parent.tpl ∧ x.tpl = [] ∧ x.tplProps = [] ∧ x.set = dynSettings x.path true parent.tplProps) ∧
+    (x.leaf = false → x.tpl = parent.tpl ∧ x.cfg = [] ∧ x.tplProps = parent.tplProps ∧ x.set = dynSettings x.path false [])
 
 theorem createChain_spec : ∀ (names : List Str) (t : Tree) (parent : Queue) (t' : Tree) (res : Except Reason Queue),
     createChain t parent names = (t', res) →
@@ -290,7 +291,9 @@ theorem createChain_spec : ∀ (names : List Str) (t : Tree) (parent : Queue) (t
               · subst e
                 refine ⟨⟨[lower name], rfl⟩, ⟨lowerName rest, by simp [newDynamic, lowerName]⟩, rfl, rfl, ?_, ?_⟩
                 · intro hl; simp [newDynamic] at hl ⊢; simp [hl]
-                · intro hl; simp [newDynamic] at hl ⊢; simp [hl]
+                · intro hl
+                  have he : rest.isEmpty = false := by simpa [newDynamic] using hl
+                  simp [newDynamic, he]
               · obtain ⟨p1, p2, p3, p4, p5, p6⟩ := hn2 x hm
                 have hpp : (newDynamic parent name rest.isEmpty).path = parent.path ++ [lower name] := rfl
                 refine ⟨?_, ?_, p3, p4, ?_, ?_⟩
@@ -382,7 +385,7 @@ theorem lowerName_recoveryQ : lowerName recoveryQ = recoveryQ := by decide
 theorem createRecovery_spec {t : Tree} {t' : Tree} {res : Except Reason Queue} (h : createRecovery t = (t', res)) :
     ∃ news, t' = t ++ news ∧
       (news ≠ [] ∨ (∃ q, res = .ok q) → ∃ root, findQ t rootQ = some root ∧ root.path = rootQ ∧ root.leaf = false ∧
-        news = [newDynamic root sRecovery true] ∧ res = .ok (newDynamic root sRecovery true)) := by
+        news = [newRecovery root] ∧ res = .ok (newRecovery root)) := by
   unfold createRecovery at h
   split at h
   · cases h; exact ⟨[], by simp, by simp⟩
@@ -393,7 +396,7 @@ theorem createRecovery_spec {t : Tree} {t' : Tree} {res : Except Reason Queue} (
       split at h
       · cases h; exact ⟨[], by simp, by simp⟩
       · cases h
-        exact ⟨[newDynamic root sRecovery true], rfl, fun _ => ⟨root, hr, (findQ_some hr).2, by simpa using hleaf, rfl, rfl⟩⟩
+        exact ⟨[newRecovery root], rfl, fun _ => ⟨root, hr, (findQ_some hr).2, by simpa using hleaf, rfl, rfl⟩⟩
 
 theorem walkUp_recovery {t : Tree} {n : QName} {root : Queue} (hn : isRecoveryName n = true)
     (hr : findQ t rootQ = some root) : walkUp t n = some root := by
@@ -417,11 +420,14 @@ theorem walkUp_recovery {t : Tree} {n : QName} {root : Queue} (hn : isRecoveryNa
 /-! ### AddApplication -/
 
 /-- what is true of the queues that an AddApplication call adds: they hang on the path of the placed name below the
-    deepest queue that existed, which is not a leaf; leaves get its child template, parents carry it on -/
+    deepest queue that existed, which is not a leaf; leaves get its child template — the template-controlled settings
+    AND the effective settings derived from the template's properties (`dynSettings`: on the recovery queue path nothing
+    is derived, UpdateQueueProperties returns early) —, parents carry the template on and have blank settings -/
 def NewBelow (t : Tree) (n : QName) (news : List Queue) : Prop :=
   ∃ anc, walkUp t n = some anc ∧ anc.leaf = false ∧
     ∀ x ∈ news, anc.path <+: x.path ∧ x.path <+: lowerName n ∧ x.managed = false ∧ x.draining = false ∧
-      (x.leaf = true → x.cfg = anc.tpl ∧ x.tpl = []) ∧ (x.leaf = false → x.tpl = anc.tpl ∧ x.cfg = [])
+      (x.leaf = true → x.cfg = anc.tpl ∧ x.tpl = [] ∧ x.tplProps = [] ∧ x.set = dynSettings x.path true anc.tplProps) ∧
+      (x.leaf = false → x.tpl = anc.tpl ∧ x.cfg = [] ∧ x.tplProps = anc.tplProps ∧ x.set = dynSettings x.path false [])
 
 theorem addApp_spec {rx : Str → Str → Bool} {t : Tree} {rules : List Rule} {a : App} {t' : Tree} {out : Outcome}
     (h : addApp rx t rules a = (t', out)) :
@@ -462,17 +468,17 @@ theorem addApp_spec {rx : Str → Str → Bool} {t : Tree} {rules : List Rule} {
           have hl : lowerName n = recoveryQ := by simpa [isRecoveryName] using hrec
           -- the facts about the new recovery queue
           have facts : news ≠ [] ∨ (∃ q, res = .ok q) →
-              ∃ root, news = [newDynamic root sRecovery true] ∧ res = .ok (newDynamic root sRecovery true) ∧ NewBelow t n news := by
+              ∃ root, news = [newRecovery root] ∧ res = .ok (newRecovery root) ∧ NewBelow t n news := by
             intro hh
             obtain ⟨root, hr1, hr2, hrl, hr3, hr4⟩ := hn2 hh
             refine ⟨root, hr3, hr4, root, walkUp_recovery hrec hr1, hrl, ?_⟩
             · intro x hx
               rw [hr3] at hx
               simp at hx; subst hx
-              refine ⟨⟨[lower sRecovery], rfl⟩, ?_, rfl, rfl, ?_, ?_⟩
-              · rw [hl]; simp [newDynamic, hr2, lower_sRecovery, recoveryQ, rootQ]
-              · intro _; simp [newDynamic]
-              · intro hh; simp [newDynamic] at hh
+              refine ⟨⟨[lower sRecovery], by simp [newRecovery, newDynamic]⟩, ?_, rfl, rfl, ?_, ?_⟩
+              · rw [hl]; simp [newRecovery, newDynamic, hr2, lower_sRecovery, recoveryQ, rootQ]
+              · intro _; simp [newRecovery, newDynamic, hrec]
+              · intro hh; simp [newRecovery, newDynamic] at hh
           cases res with
           | error e =>
             simp only at h; cases h
@@ -484,19 +490,19 @@ theorem addApp_spec {rx : Str → Str → Bool} {t : Tree} {rules : List Rule} {
             simp only at h
             obtain ⟨root, hr3, hr4, hb⟩ := facts (Or.inr ⟨q, rfl⟩)
             cases hr4
-            simp [newDynamic] at h
+            simp [newRecovery, newDynamic] at h
             obtain ⟨h1, h2⟩ := h
             subst h1; subst h2
             refine ⟨news, hn1, ?_, fun _ => ⟨r, n, hc, hg, hb⟩⟩
             intro q' hq'; cases hq'
-            refine ⟨r, n, hc, ?_, Or.inr ⟨hg, newDynamic root sRecovery true, by rw [hr3]; simp, rfl, rfl⟩⟩
+            refine ⟨r, n, hc, ?_, Or.inr ⟨hg, newRecovery root, by rw [hr3]; simp, rfl, rfl⟩⟩
             obtain ⟨root', hr1', hr2', _, hr3', _⟩ := hn2 (Or.inr ⟨_, rfl⟩)
             rw [hr3] at hr3'
             simp at hr3'
             rw [hl]
             have : root.path = rootQ := by
               have := congrArg Queue.path hr3'
-              simp [newDynamic] at this
+              simp [newRecovery, newDynamic] at this
               rw [this]; exact hr2'
             simp [this, lower_sRecovery, recoveryQ, rootQ]
       · rw [if_neg hrec] at h
@@ -878,12 +884,13 @@ theorem eligible_ne_none {t : Tree} {a : App} {n : QName} {root : Queue} (hroot 
   · simp
   · split
     · simp
-    · cases hg : getQueue t n with
-      | some q => simp
-      | none =>
-       simp only
-       have hgr := getQueue_root hroot
-       exact eligible_walk hroot hn hg
+    · split
+      · simp
+      · cases hg : getQueue t n with
+        | some q => simp
+        | none =>
+         simp only
+         exact eligible_walk hroot hn hg
 
 theorem place_no_panic (rx : Str → Str → Bool) (t : Tree) (a : App) (root : Queue) (hroot : findQ t rootQ = some root) :
     ∀ rules : List Rule, place rx t a rules ≠ .panic := by
@@ -949,9 +956,11 @@ theorem accepted_leaf_active {rx : Str → Str → Bool} {t : Tree} {rules : Lis
       rw [hq, hfr.1]; exact lowerName_recoveryQ
     · split at hel
       · cases hel
-      · rw [hg] at hel
-        simp only [Option.some.injEq, Bool.and_eq_true, Bool.not_eq_true'] at hel
-        exact Or.inl hel.2
+      · split at hel
+        · cases hel
+        · rw [hg] at hel
+          simp only [Option.some.injEq, Bool.and_eq_true, Bool.not_eq_true'] at hel
+          exact Or.inl hel.2
   · refine ⟨⟨x, by rw [h1]; exact List.mem_append_right _ hx, hp, hl⟩, ?_⟩
     intro y hy
     -- the queue did not exist
@@ -1013,7 +1022,9 @@ theorem accepted_acl {rx : Str → Str → Bool} {t : Tree} {rules : List Rule} 
     rw [hq, hfr.1]; exact lowerName_recoveryQ
   · split at hel
     · cases hel
-    · exact accepted_acl_aux hq hel
+    · split at hel
+      · cases hel
+      · exact accepted_acl_aux hq hel
 
 theorem created_only_with_create {rx : Str → Str → Bool} {t : Tree} {rules : List Rule} {a : App} {t' : Tree} {out : Outcome}
     (hwf : ∀ r ∈ rules, Rule.wf r = true) (h : addApp rx t rules a = (t', out)) :
@@ -1197,5 +1208,135 @@ theorem model_clauseP1 {rx : Str → Str → Bool} {t : Tree} {rules : List Rule
   have := addApp_no_panic (rx := rx) (rules := rules) (a := a) hroot
   rw [h] at this
   simpa [clauseP1] using this
+
+/-- the effective settings of the queues a call creates are derived from the child template of the deepest queue that
+    existed -/
+theorem created_settings {rx : Str → Str → Bool} {t : Tree} {rules : List Rule} {a : App} {t' : Tree} {out : Outcome}
+    (h : addApp rx t rules a = (t', out)) :
+    ∃ news, t' = t ++ news ∧
+      (news ≠ [] → ∃ r n anc, FirstPassing rx t a rules r n ∧ walkUp t n = some anc ∧
+        ∀ x ∈ news,
+          (x.leaf = true → x.tplProps = [] ∧ x.set = dynSettings x.path true anc.tplProps) ∧
+          (x.leaf = false → x.tplProps = anc.tplProps ∧ x.set = dynSettings x.path false [])) := by
+  obtain ⟨news, h1, _, h3⟩ := addApp_spec h
+  refine ⟨news, h1, ?_⟩
+  intro hne
+  obtain ⟨r, n, hc, _, anc, hw, _, hall⟩ := h3 hne
+  refine ⟨r, n, anc, choose_first rx t a rules r n hc, hw, ?_⟩
+  intro x hx
+  obtain ⟨_, _, _, _, c5, c6⟩ := hall x hx
+  exact ⟨fun hl => ⟨(c5 hl).2.2.1, (c5 hl).2.2.2⟩, fun hl => ⟨(c6 hl).2.2.1, (c6 hl).2.2.2⟩⟩
+
+/-! ### the recovery queue path -/
+
+/-- a name that passes the checks without being the forced recovery name: it is not below the recovery queue, and it
+    spells the recovery queue only for a forced application -/
+theorem eligible_recovery {t : Tree} {a : App} {n : QName} (h : eligible t a n = some true) :
+    belowRecovery n = false ∧ (isRecoveryName n = true → a.forced = true) := by
+  unfold eligible at h
+  split at h
+  · rename_i hfr
+    simp only [Bool.and_eq_true, decide_eq_true_eq] at hfr
+    obtain ⟨h1, h2⟩ := hfr
+    subst h1
+    exact ⟨by decide, fun _ => h2⟩
+  · split at h
+    · cases h
+    · rename_i hnf
+      split at h
+      · cases h
+      · rename_i hb
+        refine ⟨by simpa using hb, ?_⟩
+        intro hr
+        rw [hr] at hnf
+        cases hf : a.forced with
+        | true => rfl
+        | false => rw [hf] at hnf; simp at hnf
+
+theorem addApp_recovery_news {rx : Str → Str → Bool} {t : Tree} {rules : List Rule} {a : App} {t' : Tree} {out : Outcome}
+    {n : QName} (h : addApp rx t rules a = (t', out)) (hp : place rx t a rules = .placed n)
+    (hg : getQueue t n = none) (hrec : isRecoveryName n = true) :
+    ∃ news, t' = t ++ news ∧ ∀ x ∈ news, x.leaf = true ∧ x.path = recoveryQ := by
+  unfold addApp at h
+  rw [hp] at h
+  simp only [hg, hrec, if_true] at h
+  cases hcr : createRecovery t with
+  | mk t1 res =>
+    rw [hcr] at h
+    obtain ⟨news, hn1, hn2⟩ := createRecovery_spec hcr
+    have ht : t' = t1 := by
+      cases res with
+      | error e => simp only at h; cases h; rfl
+      | ok q => simp only at h; split at h <;> (cases h; rfl)
+    refine ⟨news, by rw [ht, hn1], ?_⟩
+    intro x hx
+    have hne : news ≠ [] := by intro e; rw [e] at hx; cases hx
+    obtain ⟨root, _, hr2, _, hr3, _⟩ := hn2 (Or.inl hne)
+    rw [hr3] at hx
+    simp at hx; subst hx
+    exact ⟨by simp [newRecovery, newDynamic], by simp [newRecovery, newDynamic, hr2, lower_sRecovery, recoveryQ, rootQ]⟩
+
+/-- no call creates a queue at or below the recovery queue path, except the recovery leaf itself for a forced
+    application -/
+theorem recovery_path_protected {rx : Str → Str → Bool} {t : Tree} {rules : List Rule} {a : App} {t' : Tree} {out : Outcome}
+    (h : addApp rx t rules a = (t', out)) :
+    ∃ news, t' = t ++ news ∧
+      ∀ x ∈ news, recoveryQ <+: x.path → x.path = recoveryQ ∧ x.leaf = true ∧ a.forced = true := by
+  obtain ⟨news, h1, _, h3⟩ := addApp_spec h
+  refine ⟨news, h1, ?_⟩
+  intro x hx hpre
+  have hne : news ≠ [] := by intro e; rw [e] at hx; cases hx
+  obtain ⟨r, n, hc, hg, anc, _, _, hall⟩ := h3 hne
+  obtain ⟨_, hxn, _⟩ := hall x hx
+  obtain ⟨_, _, _, _, _, hel, _⟩ := choose_first rx t a rules r n hc
+  obtain ⟨hbelow, hforced⟩ := eligible_recovery hel
+  have hpn : recoveryQ <+: lowerName n := hpre.trans hxn
+  have hlen2 : 2 ≤ n.length := by
+    have := hpn.length_le
+    rw [lowerName_length] at this
+    simpa [recoveryQ] using this
+  -- the name has exactly two parts: it spells the recovery queue
+  have hlen : n.length = 2 := by
+    cases Nat.lt_or_ge n.length 3 with
+    | inl hlt => omega
+    | inr hge =>
+      exfalso
+      have : belowRecovery n = true := by
+        simp only [belowRecovery, Bool.and_eq_true, decide_eq_true_eq]
+        exact ⟨List.isPrefixOf_iff_prefix.mpr hpn, hge⟩
+      rw [this] at hbelow; cases hbelow
+  have hrn : lowerName n = recoveryQ := by
+    have := hpn.eq_of_length (by rw [lowerName_length, hlen]; rfl)
+    exact this.symm
+  have hrec : isRecoveryName n = true := by simp [isRecoveryName, hrn]
+  have hp : place rx t a rules = .placed n := (place_placed_iff rx t a rules n).mpr ⟨r, hc⟩
+  obtain ⟨news', h1', hall'⟩ := addApp_recovery_news h hp hg hrec
+  have : news' = news := List.append_cancel_left (by rw [← h1', ← h1])
+  subst this
+  obtain ⟨hl, hpth⟩ := hall' x hx
+  exact ⟨hpth, hl, hforced hrec⟩
+
+theorem model_clauseV2 {rx : Str → Str → Bool} {t : Tree} {rules : List Rule} {a : App} {t' : Tree} {out : Outcome}
+    (h : addApp rx t rules a = (t', out)) :
+    ∀ x ∈ t', x ∉ t → recoveryQ <+: x.path → x.path = recoveryQ ∧ x.leaf = true := by
+  obtain ⟨news, h1, hall⟩ := recovery_path_protected h
+  intro x hx hnt hpre
+  rw [h1] at hx
+  rcases List.mem_append.mp hx with hm | hm
+  · exact absurd hm hnt
+  · exact ⟨(hall x hm hpre).1, (hall x hm hpre).2.1⟩
+
+/-- no application is accepted into a queue below the recovery queue -/
+theorem accepted_not_below_recovery {rx : Str → Str → Bool} {t : Tree} {rules : List Rule} {a : App} {t' : Tree} {q : QName}
+    (h : addApp rx t rules a = (t', .accepted q)) : ¬(recoveryQ <+: q ∧ 3 ≤ q.length) := by
+  obtain ⟨r, n, hfp, hq⟩ := accepted_first_rule h
+  obtain ⟨_, _, _, _, _, hel, _⟩ := hfp
+  obtain ⟨hb, _⟩ := eligible_recovery hel
+  intro ⟨hpre, hlen⟩
+  have : belowRecovery n = true := by
+    simp only [belowRecovery, Bool.and_eq_true, decide_eq_true_eq]
+    refine ⟨List.isPrefixOf_iff_prefix.mpr (by rw [← hq]; exact hpre), ?_⟩
+    rw [hq, lowerName_length] at hlen; exact hlen
+  rw [this] at hb; cases hb
 
 end Yk.Place
